@@ -153,6 +153,29 @@ def run(ctx: Context) -> None:
             ctx.violation("C06a", key, fa.file, (_body(fa)[i].lineno if i < len(da) else fa.line),
                           f"{array} is not {scalar} applied along the last axis: statement {i + 1} is `{a_txt[:70]}` where the scalar version has "
                           f"`{s_txt[:70]}`; at most one of the two can agree with the enumeration", a_txt[:90])
+    # (d) the accumulators of the vectorised index have a fixed integer dtype of at least 32 bits: the scalar twin computes
+    #     with Python integers, so the width of the index must not depend on how the occupation numbers happen to be stored
+    ctx.rule("C06d", "the accumulators of the vectorised index functions are allocated with a literal integer dtype of at least 32 bits "
+                     "(np.int32 / np.int64 / np.intp / int), never with a dtype taken from the argument")
+    WIDE = {"np.int32", "np.int64", "np.intp", "int", "np.int_", "np.uint32", "np.uint64", "numpy.int32", "numpy.int64"}
+    n_alloc = 0
+    for array in ("get_index_in_fock_space_array", "get_index_in_fock_subspace_array"):
+        fa = need(mi, array)
+        for n in ast.walk(fa.node):
+            if isinstance(n, ast.Call) and (dotted(n.func) or "").split(".")[-1] in ("zeros", "empty", "zeros_like", "empty_like", "full"):
+                n_alloc += 1
+                dt = next((k.value for k in n.keywords if k.arg == "dtype"), None)
+                txt = norm(dt) if dt is not None else "<default>"
+                like = (dotted(n.func) or "").endswith("_like") and dt is None
+                ok = (dt is not None and txt in WIDE)
+                key = f"{IND}:{array}|accumulator dtype|{norm(n)[:60]}"
+                ctx.obligation("C06d", key, ok, f"{ctx.relpath(fa.file)}:{n.lineno}", dtype=txt)
+                if not ok:
+                    ctx.violation("C06d", key, fa.file, n.lineno,
+                                  f"the index accumulator is allocated with dtype `{txt}`{' (the dtype of the argument)' if like or 'dtype' in txt else ''}: "
+                                  "for occupation numbers stored in a narrow integer type the positions wrap around (position 128 of an int8 basis "
+                                  "comes back as -128), while the scalar twin computes with Python integers", norm(n)[:100])
+    ctx.require_floor("C06d accumulator allocations in the vectorised index functions", n_alloc, 4)
     # dimension twins: the array versions evaluate the scalar formula elementwise
     for m, scalar, array in ((mf, "cutoff_fock_space_dim", "cutoff_fock_space_dim_array"), (me, "get_cutoff_fock_space_dimension", "cutoff_fock_space_dim_array")):
         fs, fa = need(m, scalar), need(m, array)
